@@ -38,6 +38,15 @@ impl Dimensionality {
         value
     }
 
+    /// Whether every power is one that `^` could have produced. While
+    /// the operands keep to that range, adding two powers cannot
+    /// overflow.
+    pub fn powers_in_range(&self) -> bool {
+        self.dims
+            .values()
+            .all(|power| power.unsigned_abs() <= i32::MAX as u64)
+    }
+
     pub fn iter<'a>(&'a self) -> Iter<'a, BaseUnit, i64> {
         self.dims.iter()
     }
